@@ -2,6 +2,8 @@ import NomtModel.Store.ImgCheck
 import NomtModel.Store.ConstantsAlloc
 import NomtModel.Store.ProbeInv
 import NomtModel.Store.FreeListBounded
+import NomtModel.Store.FreeListWF
+import NomtModel.Store.FreeListNthPop
 /-!
 # C19 — page accounting (the part checked on the on-disk image)
 
@@ -15,11 +17,14 @@ page that is both free and in use or used twice.
 The second part (T19.1 – T19.3) is about the allocator itself: `Store/FreeListModel.lean` mirrors
 `beatree/allocator/free_list.rs` (`pop`, `discard`, `commit` = `preallocate` + `push_and_encode` with the
 fragmentation logic) and `SyncAllocator::allocate` / `SyncFinisher::finish` at the level of page numbers;
-`Store/FreeListLemmas.lean` proves that page numbers are conserved through a sync.  The theorems are
+`Store/FreeListLemmas.lean` proves that page numbers are conserved through a sync.  T19.1 – T19.3 are
 conditional on `finish … = some r`: the model answers `none` where the code would panic (`unwrap` of an
-exhausted `new_pages`, the `assert!`s of `push` / `push_and_encode`) or when the loop fuel runs out; that this
-never happens on well-shaped lists, and that the result is well-shaped again, is checked exhaustively for small
-capacities (`Store/FreeListBounded.lean`) but not proved in general.
+exhausted `new_pages`, the `assert!`s of `push` / `push_and_encode`) or when the loop fuel runs out.  T19.5
+(`Store/FreeListTotal.lean`) removes the condition: on a well-shaped list (`WellShaped`, the invariant of a
+committed free list) `finish` answers `some` for EVERY capacity ≥ 2, every allocation count and every freed list,
+and the new list is well-shaped; T19.2u / T19.3u / T19.6 are the unconditional forms (T19.6: over whole
+histories starting from the empty store).  `Store/FreeListBounded.lean` (T19.4) keeps the earlier bounded
+evaluation as an independent check of the executable model.
 -/
 namespace Nomt.C19
 open Nomt Nomt.Store
@@ -205,5 +210,103 @@ example : (commit 2 { portions := [(1, [2]), (10, [12, 11])], released := [], po
 `Store/FreeListBounded.lean` for the ranges) `finish` answers `some` and the new list is well-shaped. -/
 theorem T19_4_no_panic_bounded : checkAll 2 3 8 6 = true ∧ checkAll 3 2 9 6 = true ∧ checkAll 4 1 9 8 = true :=
   ⟨bounded_cap2, bounded_cap3, bounded_cap4⟩
+
+/-! ## Unconditional forms (no `finish … = some r` hypothesis) -/
+
+/-- T19.5 **`commit` / `finish` cannot panic**: for every capacity `cap ≥ 2`, every well-shaped free list (every
+portion holds 1 … cap items, every portion below the head is full, except that the second may hold `cap - 1`
+items when the head holds exactly one), every number of allocations and every list of freed pages, the model of
+`SyncFinisher::finish` answers `some r` — no `unwrap` of an empty portion or of exhausted `new_pages`, no failing
+`assert!` in `push` / `push_and_encode`, the `preallocate` loop ends within the model's fuel — and the new free
+list is well-shaped.  (Proof: the invariant `i = free slots of the head + cap · |new_pages|` of the `preallocate`
+loop, which the code's comment states as "free list len + i is divisible by MAX_PNS_PER_PAGE", and the bound
+`i ≤ |to_push| + cap` that makes `push_and_encode` consume `new_pages` exactly, the `fragmentation` clause
+covering the boundary case.) -/
+theorem T19_5_finish_never_panics (cap : Nat) (hc : 2 ≤ cap) (s : State) (n : Nat) (freed : List Nat)
+    (hw : WellShaped cap s.portions) :
+    ∃ r, finish cap s n freed = some r ∧ WellShaped cap r.state.portions :=
+  finish_total hc s n freed hw
+
+/-- the executable shape check used by the bounded evidence and the `alloc` driver mode decides `WellShaped` -/
+theorem T19_5b_wellShaped_decides (cap : Nat) (hc : 2 ≤ cap) (ps : List Portion) :
+    wellShaped cap ps = true ↔ WellShaped cap ps := wellShaped_iff hc ps
+
+/-- T19.2u **conservation, unconditionally**: T19.2 with the hypothesis `finish … = some r` replaced by
+`WellShaped cap s.portions` and `2 ≤ cap`; the result is well-shaped again. -/
+theorem T19_2u_conservation (cap : Nat) (hc : 2 ≤ cap) (s : State) (n : Nat) (freed live : List Nat)
+    (hw : WellShaped cap s.portions) (hb : 1 ≤ s.bump) (hrel : s.released = [])
+    (hu : ∀ a, (a ∈ pagesOf s.portions ∨ a ∈ live) ↔ (1 ≤ a ∧ a < s.bump))
+    (hd : ∀ a, ¬ (a ∈ pagesOf s.portions ∧ a ∈ live))
+    (htn : (pagesOf s.portions).Nodup) (hln : live.Nodup)
+    (hfn : freed.Nodup) (hsub : ∀ a ∈ freed, a ∈ live) :
+    ∃ r, finish cap s n freed = some r ∧ WellShaped cap r.state.portions ∧
+      (∀ a, (a ∈ pagesOf r.state.portions ∨ a ∈ liveAfter live freed (handedOut s n)) ↔ (1 ≤ a ∧ a < r.state.bump)) ∧
+      (∀ a, ¬ (a ∈ pagesOf r.state.portions ∧ a ∈ liveAfter live freed (handedOut s n))) ∧
+      (pagesOf r.state.portions).Nodup ∧ (liveAfter live freed (handedOut s n)).Nodup ∧ r.state.released = [] := by
+  obtain ⟨r, hfin, hw'⟩ := finish_total hc s n freed hw
+  obtain ⟨p1, p2, p3, p4, p5⟩ := T19_2_conservation cap s n freed live r hb hrel hu hd htn hln hfn hsub hfin
+  exact ⟨r, hfin, hw', p1, p2, p3, p4, p5⟩
+
+/-- T19.3u **the frontier, unconditionally**: `finish` answers `some r` with `bump ≤ bump'`, and `bump' = bump`
+when the free list can serve all allocations and is not consumed completely by `commit`. -/
+theorem T19_3u_bump (cap : Nat) (hc : 2 ≤ cap) (s : State) (n : Nat) (freed : List Nat)
+    (hw : WellShaped cap s.portions) :
+    ∃ r, finish cap s n freed = some r ∧ s.bump ≤ r.state.bump ∧
+      (n ≤ (itemsOf s.portions).length → r.exhausted = false → r.state.bump = s.bump) := by
+  obtain ⟨r, hfin, _⟩ := finish_total hc s n freed hw
+  exact ⟨r, hfin, T19_3_bump cap s n freed r hfin⟩
+
+/-- T19.6 **over whole histories**: starting from the empty store (no free list, frontier 1, nothing live), after
+ANY sequence of syncs — each with any number of allocations and freeing any duplicate-free set of pages live at
+that moment — the free list is well-shaped and the tracked pages and the live pages partition `[1, bump)`:
+no page below the frontier is leaked, none is both free and live, none is tracked twice; and the next sync
+cannot panic either. -/
+theorem T19_6_history (cap : Nat) (hc : 2 ≤ cap) (s : State) (live : List Nat) (h : Reachable cap s live) :
+    WellShaped cap s.portions ∧
+    (∀ a, (a ∈ pagesOf s.portions ∨ a ∈ live) ↔ (1 ≤ a ∧ a < s.bump)) ∧
+    (∀ a, ¬ (a ∈ pagesOf s.portions ∧ a ∈ live)) ∧ (pagesOf s.portions).Nodup ∧ live.Nodup ∧
+    (∀ n freed, freed.Nodup → (∀ a ∈ freed, a ∈ live) → ∃ r, finish cap s n freed = some r) := by
+  have g := reachable_good hc h
+  obtain ⟨p1, p2, p3, p4⟩ := partition_of_count g.part
+  refine ⟨g.shape, p1, p2, p3, p4, ?_⟩
+  intro n freed hn hsub
+  obtain ⟨r, hfin, _⟩ := good_step hc g n freed hn hsub
+  exact ⟨r, hfin⟩
+
+/-- non-vacuity of T19.6: two syncs from the empty store (capacity 2): allocate pages 1, 2, 3; then free 1 and 2
+while allocating one more (page 4) — the free list is born: page 5 holding {2, 1}. -/
+example : ∃ s live, Reachable 2 s live ∧ s.portions = [(5, [2, 1])] ∧ s.bump = 6 ∧ live = [3, 4] := by
+  have r0 : Reachable 2 { portions := [], released := [], pop := false, bump := 1 } [] := .init
+  have r1 := Reachable.sync _ _ 3 [] _ r0 (by decide) (by intro a h; cases h)
+    (by decide : finish 2 { portions := [], released := [], pop := false, bump := 1 } 3 [] =
+      some { state := { portions := [], released := [], pop := false, bump := 4 }, written := [], exhausted := false })
+  have r2 := Reachable.sync _ _ 1 [1, 2] _ r1 (by decide) (by decide)
+    (by decide : finish 2 { portions := [], released := [], pop := false, bump := 4 } 1 [1, 2] =
+      some { state := { portions := [(5, [2, 1])], released := [], pop := false, bump := 6 }, written := [5],
+             exhausted := true })
+  exact ⟨_, _, r2, rfl, rfl, by decide⟩
+
+/-- T19.7 **`CleanFreeList::len` / `get_nth_pop` are what `allocate` assumes.**  `lenAndFragmented` and
+`getNthPop` mirror `len_and_fragmented` and `get_nth_pop` with their index arithmetic over the Rust-order
+representation `toRust s.portions` (head portion last, top of each item vector last).  On a well-shaped list the
+length field is the number of free pages, and for every allocation index below it `get_nth_pop` returns the page
+the model's `allocate` returns — the `i`-th element of the pop sequence, i.e. exactly the page the `i`-th `pop` /
+`discard` removes (`discardP_spec`). -/
+theorem T19_7_get_nth_pop (cap : Nat) (hc : 2 ≤ cap) (s : State) (hw : WellShaped cap s.portions) :
+    (lenAndFragmented cap (toRust s.portions)).1 = (itemsOf s.portions).length ∧
+    ∀ i, i < (itemsOf s.portions).length →
+      getNthPop cap (toRust s.portions) (lenAndFragmented cap (toRust s.portions)).2 i = allocate s i := by
+  obtain ⟨h1, h2⟩ := getNthPop_spec hc s.portions hw
+  refine ⟨h1, fun i hi => ?_⟩
+  rw [h2 i hi]
+  simp [allocate, hi]
+
+/-- non-vacuity of T19.7 (capacity 4, the shape of the unit test `clean_nth_pop_fragmented`): head {7}, a
+fragmented second portion of three items, two full portions -/
+example : (List.range 12).map (getNthPop 4 (toRust
+      [(6, [7]), (5, [3, 2, 100]), (4, [14, 13, 12, 11]), (1, [24, 23, 22, 21])]) true)
+    = [7, 3, 2, 100, 14, 13, 12, 11, 24, 23, 22, 21] ∧
+    lenAndFragmented 4 (toRust [(6, [7]), (5, [3, 2, 100]), (4, [14, 13, 12, 11]), (1, [24, 23, 22, 21])]) = (12, true) := by
+  decide
 
 end Nomt.C19
